@@ -219,6 +219,10 @@ func scenarios() []scenario {
 			for _, k := range []bool{true, false} {
 				out = append(out, scenario{Hello: h, Cancel: c, Keys: k})
 			}
+			// the context ends while NewConn is blocked and the client does not read either: NewConn must still fail promptly
+			if (h == "never" || h == "two-fragments") && (c == "t1" || c == "deadline2" || c == "t0") {
+				out = append(out, scenario{Hello: h, Cancel: c, Keys: true, BlockedWrites: true})
+			}
 		}
 	}
 	return out
